@@ -2,6 +2,7 @@ package lunarcontext
 
 import (
 	publictypes "lunar/engine/streams/public-types"
+	"sync"
 )
 
 var _ publictypes.LunarContextI = &lunarContext{}
@@ -10,6 +11,8 @@ type lunarContext struct {
 	globalContext        publictypes.ContextI
 	transactionalContext publictypes.ContextI
 	flowContext          publictypes.ContextI
+	// one lunarContext serves all concurrent transactions of a flow
+	transactionalMutex sync.RWMutex
 }
 
 // NewLunarContext creates a new LunarContext
@@ -36,15 +39,21 @@ func (c *lunarContext) SetFlowContext(flowContext publictypes.ContextI) {
 
 // InitiateTransactionalContext initiates a new transactional context
 func (c *lunarContext) InitiateTransactionalContext() {
+	c.transactionalMutex.Lock()
+	defer c.transactionalMutex.Unlock()
 	c.transactionalContext = NewContext()
 }
 
 // DestroyTransactionalContext destroys the transactional context
 func (c *lunarContext) DestroyTransactionalContext() {
+	c.transactionalMutex.Lock()
+	defer c.transactionalMutex.Unlock()
 	c.transactionalContext = nil
 }
 
 // GetTransactionalContext returns the transactional context
 func (c *lunarContext) GetTransactionalContext() publictypes.ContextI {
+	c.transactionalMutex.RLock()
+	defer c.transactionalMutex.RUnlock()
 	return c.transactionalContext
 }
